@@ -17,7 +17,7 @@ from holopy.scattering.scatterer import RigidCluster, LayeredSphere
 from holopy.scattering.interface import validate_scatterer
 
 ID = "C11"
-LEAN_MODULES = ["HoloProps.C11", "HoloProps.C11Ties"]
+LEAN_MODULES = ["HoloProps.C11", "HoloProps.C11Ties", "HoloProps.C11Survivors"]
 MODEL_MODULES = ["HoloModel.Mapping"]
 NOT_PROVED = [
     "termination of the `_0, _1, ...` name de-duplication loop within its fuel, and hence uniqueness of names over a whole mapping run (one-step theorem C11_add_parameter_fresh_partial only); uniqueness is checked on the implementation by the search",
